@@ -483,6 +483,11 @@ def apply_op(table, o: dict, rng: random.Random | None = None, enc: str = "max")
         return table.extend_rows([make_row(x["r"], x["n"], enc, rng) for x in o["rs"]])
     if op == "transpose":
         return table.transpose()
+    if op == "transpose_area":
+        from .coord_driver import alpha
+
+        forms = [(o["x"], o["y"], o["z"], o["t"]), [o["x"], o["y"], o["z"], o["t"]], f"{alpha(o['x'])}{o['y'] + 1}:{alpha(o['z'])}{o['t'] + 1}"]
+        return table.transpose(forms[rng.randrange(3)] if rng is not None else forms[0])
     if op == "rstrip":
         return table.rstrip(aggressive=bool(o["c"]))
     if op == "optimize_width":
